@@ -33,7 +33,7 @@ from typing import Protocol
 
 from src.core.base import BaseLintContext, BaseLintRule
 from src.core.constants import HEADER_SCAN_LINES, Language
-from src.core.linter_utils import load_linter_config
+from src.core.linter_utils import load_linter_config, path_in_project
 from src.core.types import Violation
 from src.linter_config.directive_markers import check_general_ignore, has_ignore_directive_marker
 from src.linter_config.ignore import _check_specific_rule_ignore, get_ignore_parser
@@ -203,7 +203,7 @@ class FileHeaderRule(BaseLintRule):  # thailint: ignore[srp]
         if not context.file_path:
             return False
 
-        file_path = Path(context.file_path)
+        file_path = path_in_project(context) or Path(context.file_path)
         return any(self._matches_ignore_pattern(file_path, p) for p in config.ignore)
 
     def _matches_ignore_pattern(self, file_path: Path, pattern: str) -> bool:
